@@ -344,6 +344,30 @@ pub fn run(cfg: &Cfg) {
         let _ = base;
     }
     if cfg.shard == 0 && cfg.space != "c07" {
+        // look-behinds of astronomically large constant width (the VM interprets the body, so nothing is
+        // unrolled): arithmetic on the width must not wrap
+        for n in ["2147483648", "4294967296", "4611686018427387904", "9223372036854775808", "18446744073709551614"] {
+            for p in [
+                format!("(?<=(?:\\b.){{{}}})x", n),
+                format!("(?<!(?:\\b.){{{}}})x", n),
+                format!("(?<=(?:(?:\\b.){{{}}}){{4294967296}})x", n),
+                format!("(?<!(?:(?:\\b.){{{}}}){{2}})x", n),
+            ] {
+                let b = s.pattern(&p, &opts, true, true);
+                if b.re.is_none() {
+                    continue;
+                }
+                for t in ["", "x", "ax bx", "éx"] {
+                    for pos in boundaries(t) {
+                        let a = s.caps(&b, t, pos, false, 1_000_000);
+                        if cfg.space == "c05" {
+                            check_answer_c05(&mut s, &p, t, pos, &a);
+                        }
+                        s.count("huge_lookbehind_cases");
+                    }
+                }
+            }
+        }
         for (p1, p2, t) in long_cases() {
             for p in [p1, p2] {
                 let b = s.pattern(&p, &opts, true, true);
